@@ -166,7 +166,7 @@ func (e *engine) buildVC(fn *ssa.Function, layer string) (*funcVC, error) {
 		return vc, e.vcErr[key]
 	}
 	vc := &funcVC{w: e.w, fn: fn, c: newSMT(e.w), ma: e.ma, nPanicSites: map[string]int{}, closures: map[string]closureInfo{},
-		localSorts: map[string]string{}, callCount: map[string]int{}, siteCount: map[string]int{}, matchedSites: map[*clause]bool{}, assumed: map[string]bool{}, layer: layer}
+		localSorts: map[string]string{}, callCount: map[string]int{}, siteCount: map[string]int{}, matchedSites: map[*clause]bool{}, coveredSites: map[ssa.Instruction]bool{}, assumed: map[string]bool{}, layer: layer}
 	vc.ct = e.w.db.Contracts[fn.String()]
 	vc.icts = e.w.ifaceContractsFor(fn)
 	if vc.ct != nil && vc.ct.HeapWF {
